@@ -270,7 +270,9 @@ def known_match(prop, f, impl, findings):
     sk = skeleton(expr)
     ic = impl_class(impl)
     for k in findings:
-        if k.get("property") != prop:
+        # mechanism-identified findings are recognised by re-running the model (run_property), never by pattern;
+        # an entry without a signature matches nothing
+        if k.get("property") != prop or k.get("mechanism") or not k.get("signature"):
             continue
         sig = k.get("signature", {})
         pat = sig.get("expr_skeleton")
